@@ -17,3 +17,241 @@ package spec
 //@   ensures @conflict-iff (result1 != nil) == lalrConflict(s.Grammar, s.Precedences)
 //@   ensures @table result1 == nil ==> result0 != nil && result0 == lalrTable(s.Grammar, s.Precedences)
 //@   ensures @no-table result1 != nil ==> result0 == nil
+
+// ---- the evaluation callback of Parse: one reduce action per production of the EBNF grammar ----
+//
+// lrValuesTyped / lrResultTyped: the LR value discipline (generated from the productions literal and one
+// type table, /verif/specs/gen/ebnf_values.gvc). Every action is proved to produce a value of its head's
+// type assuming the values of its body symbols have theirs; that the values handed to a reduction are
+// those of the body symbols, in order, is the stated lemma L-STACK.
+
+//@ import "github.com/moorara/algo/parser/lr"
+//@ import "github.com/moorara/algo/grammar"
+
+//@ func Parse$1(i int, rhs []*lr.Value) (any, error)
+//@   captures table != nil && tableOK(table) && errs != nil && errs.n >= 0
+//@   split i 0 34
+//@   assumes @L-STACK lrValuesTyped(i, rhs)
+//@   modifies errs, all(errors.MultiError.n)
+//@   modifies table.precedences, table.terminals, table.nonTerminals, table.productions, table.strings
+//@   modifies table.terminals.table.dom, table.terminals.table.val, table.terminals.table.vals
+//@   modifies table.nonTerminals.table.dom, table.nonTerminals.table.val, table.nonTerminals.table.vals
+//@   modifies table.productions.table.dom, table.productions.table.val, table.productions.table.vals
+//@   modifies table.strings.table.dom, table.strings.table.val, table.strings.table.vals
+//@   modifies all(terminalEntry.occurrences), all(terminalEntry.definitions), all(nonTerminalEntry.occurrences), all(productionEntry.occurrences)
+//@   ensures @inv tableOK(table) && sameTables(table) && errs != nil && errs.n >= 0
+//@   loop[0] invariant tableOK(table) && sameTables(table)
+//@   loop[1] invariant tableOK(table) && sameTables(table)
+//@   loop[2] invariant tableOK(table) && sameTables(table)
+//@   loop[3] invariant tableOK(table) && sameTables(table)
+//@   loop[6] invariant tableOK(table) && sameTables(table)
+//@   ensures @typed result1 == nil && 0 <= i && i <= 34 ==> lrResultTyped(i, result0)
+//@   ensures @spec-nonnil i == 0 && result1 == nil ==> unbox(result0, "*Spec") != nil
+
+// ---- the symbol table ----
+
+//@ func (t *SymbolTable) AddPrecedence(p *lr.PrecedenceLevel)
+//@   requires t != nil
+//@   modifies t.precedences
+//@   ensures len(t.precedences.list) == len(old(t.precedences.list)) + 1
+//@   ensures t.precedences.list[len(old(t.precedences.list))] == p
+//@   ensures forall j int :: {t.precedences.list[j]} 0 <= j && j < len(old(t.precedences.list)) ==> t.precedences.list[j] == old(t.precedences.list)[j]
+
+//@ func (t *SymbolTable) Precedences() lr.PrecedenceLevels
+//@   requires t != nil
+//@   ensures result == t.precedences.list
+
+// tableOK: representation invariant. The terminals / nonTerminals tables compare keys with == (EqTerminal,
+// EqNonTerminal), so their abstract content (dom, val) is an ordinary finite map; every stored entry is non-nil.
+//@ spec func tableOK(t *SymbolTable) bool = t != nil
+//@   && t.terminals.table != nil && t.terminals.table.ident && t.nonTerminals.table != nil && t.nonTerminals.table.ident
+//@   && t.productions.table != nil && t.strings.table != nil
+//@   && t.terminals.table != t.nonTerminals.table && t.terminals.table != t.productions.table && t.terminals.table != t.strings.table
+//@   && t.nonTerminals.table != t.productions.table && t.nonTerminals.table != t.strings.table && t.productions.table != t.strings.table
+//@   && (forall a grammar.Terminal :: {t.terminals.table.val[a]} a in t.terminals.table.dom ==> t.terminals.table.val[a] != nil && allocated(t.terminals.table.val[a]))
+//@   && (forall a grammar.Terminal, b grammar.Terminal :: {t.terminals.table.val[a], t.terminals.table.val[b]} a in t.terminals.table.dom && b in t.terminals.table.dom && a != b ==> t.terminals.table.val[a] != t.terminals.table.val[b])
+//@   && (forall A grammar.NonTerminal :: {t.nonTerminals.table.val[A]} A in t.nonTerminals.table.dom ==> t.nonTerminals.table.val[A] != nil)
+//@   && (forall e *productionEntry :: {e in t.productions.table.vals} e in t.productions.table.vals ==> e != nil)
+//@   && (forall a grammar.Terminal, j int :: {t.terminals.table.val[a].definitions[j]} a in t.terminals.table.dom && 0 <= j && j < len(t.terminals.table.val[a].definitions)
+//@         ==> t.terminals.table.val[a].definitions[j] != nil && allocated(t.terminals.table.val[a].definitions[j]) && t.terminals.table.val[a].definitions[j].Terminal == a)
+//@   && (forall e *stringsEntry :: {e in t.strings.table.vals} e in t.strings.table.vals ==> e != nil)
+
+// sameTables: the four tables are the objects they were at entry (only their content changes).
+//@ spec func sameTables(t *SymbolTable) bool = t.terminals.table == old(t.terminals.table) && t.nonTerminals.table == old(t.nonTerminals.table)
+//@   && t.productions.table == old(t.productions.table) && t.strings.table == old(t.strings.table)
+
+// defsOf(t, a): every definition recorded for terminal a.
+//@ spec func defsOf(t *SymbolTable, a grammar.Terminal) []*TerminalDef = t.terminals.table.val[a].definitions
+
+//@ func (t *SymbolTable) AddStringTerminal(a grammar.Terminal, pos *lexer.Position)
+//@   requires tableOK(t)
+//@   modifies t.terminals, t.terminals.table.dom, t.terminals.table.val, t.terminals.table.vals, all(terminalEntry.occurrences)
+//@   ensures tableOK(t) && sameTables(t)
+//@   ensures t.terminals.table.dom == setadd(old(t.terminals.table.dom), a)
+//@   ensures forall b grammar.Terminal :: {t.terminals.table.val[b]} b != a ==> t.terminals.table.val[b] == old(t.terminals.table.val)[b]
+//@   ensures a in old(t.terminals.table.dom) ==> t.terminals.table.val[a] == old(t.terminals.table.val)[a]
+//@   ensures @self-defined !(a in old(t.terminals.table.dom)) ==> fresh(t.terminals.table.val[a]) && len(defsOf(t, a)) == 1 && defsOf(t, a)[0] != nil
+//@     && defsOf(t, a)[0].Terminal == a && defsOf(t, a)[0].Value == string(a) && !defsOf(t, a)[0].IsRegex
+
+//@ func (t *SymbolTable) AddTokenTerminal(a grammar.Terminal, pos *lexer.Position)
+//@   requires tableOK(t)
+//@   modifies t.terminals, t.terminals.table.dom, t.terminals.table.val, t.terminals.table.vals, all(terminalEntry.occurrences)
+//@   ensures tableOK(t) && sameTables(t)
+//@   ensures t.terminals.table.dom == setadd(old(t.terminals.table.dom), a)
+//@   ensures forall b grammar.Terminal :: {t.terminals.table.val[b]} b != a ==> t.terminals.table.val[b] == old(t.terminals.table.val)[b]
+//@   ensures a in old(t.terminals.table.dom) ==> t.terminals.table.val[a] == old(t.terminals.table.val)[a]
+//@   ensures @undefined !(a in old(t.terminals.table.dom)) ==> fresh(t.terminals.table.val[a]) && len(defsOf(t, a)) == 0
+
+// A token declaration appends one definition (string or pattern) to the terminal's entry and touches no other entry.
+//@ spec func defAdded(t *SymbolTable, token grammar.Terminal, value string, isRegex bool, pos *lexer.Position) bool =
+//@   t.terminals.table.dom == setadd(old(t.terminals.table.dom), token)
+//@   && (forall b grammar.Terminal :: {t.terminals.table.val[b]} b != token ==> t.terminals.table.val[b] == old(t.terminals.table.val)[b])
+//@   && (token in old(t.terminals.table.dom) ==> t.terminals.table.val[token] == old(t.terminals.table.val)[token]
+//@         && len(defsOf(t, token)) == len(old(defsOf(t, token))) + 1
+//@         && (forall j int :: {defsOf(t, token)[j]} 0 <= j && j < len(old(defsOf(t, token))) ==> defsOf(t, token)[j] == old(defsOf(t, token))[j]))
+//@   && (!(token in old(t.terminals.table.dom)) ==> fresh(t.terminals.table.val[token]) && len(defsOf(t, token)) == 1)
+//@   && defsOf(t, token)[len(defsOf(t, token)) - 1] != nil && fresh(defsOf(t, token)[len(defsOf(t, token)) - 1])
+//@   && defsOf(t, token)[len(defsOf(t, token)) - 1].Terminal == token && defsOf(t, token)[len(defsOf(t, token)) - 1].Value == value
+//@   && defsOf(t, token)[len(defsOf(t, token)) - 1].IsRegex == isRegex && defsOf(t, token)[len(defsOf(t, token)) - 1].Pos == pos
+//@   && (forall e *terminalEntry :: {e.definitions} e != t.terminals.table.val[token] ==> e.definitions == old(e.definitions))
+
+//@ func (t *SymbolTable) AddStringTokenDef(token grammar.Terminal, value string, pos *lexer.Position)
+//@   requires tableOK(t)
+//@   modifies t.terminals, t.terminals.table.dom, t.terminals.table.val, t.terminals.table.vals, all(terminalEntry.definitions)
+//@   ensures tableOK(t) && sameTables(t)
+//@   ensures @def-added defAdded(t, token, value, false, pos)
+
+//@ func (t *SymbolTable) AddRegexTokenDef(token grammar.Terminal, regex string, pos *lexer.Position)
+//@   requires tableOK(t)
+//@   modifies t.terminals, t.terminals.table.dom, t.terminals.table.val, t.terminals.table.vals, all(terminalEntry.definitions)
+//@   ensures tableOK(t) && sameTables(t)
+//@   ensures @def-added defAdded(t, token, regex, true, pos)
+
+//@ func (t *SymbolTable) AddNonTerminal(A grammar.NonTerminal, pos *lexer.Position)
+//@   requires tableOK(t)
+//@   modifies t.nonTerminals, t.nonTerminals.table.dom, t.nonTerminals.table.val, t.nonTerminals.table.vals, all(nonTerminalEntry.occurrences)
+//@   ensures tableOK(t) && sameTables(t)
+//@   ensures t.nonTerminals.table.dom == setadd(old(t.nonTerminals.table.dom), A)
+
+//@ func (t *SymbolTable) AddProduction(p *grammar.Production, pos *lexer.Position)
+//@   requires tableOK(t)
+//@   modifies t.productions, t.productions.table.dom, t.productions.table.val, t.productions.table.vals, all(productionEntry.occurrences)
+//@   ensures tableOK(t) && sameTables(t)
+
+// ---- synthesised non-terminals for ( ) [ ] { } {{ }} ----
+
+//@ func (t *SymbolTable) mapStringToNoneTerminal(s Strings, suffix string) grammar.NonTerminal
+//@   requires tableOK(t)
+//@   modifies t.strings
+//@   ensures tableOK(t) && sameTables(t)
+
+//@ func (t *SymbolTable) GetOpt(s Strings) grammar.NonTerminal
+//@   requires tableOK(t)
+//@   modifies t.strings, t.strings.table.dom, t.strings.table.val, t.strings.table.vals
+//@   ensures tableOK(t) && sameTables(t)
+
+//@ func (t *SymbolTable) GetGroup(s Strings) grammar.NonTerminal
+//@   requires tableOK(t)
+//@   modifies t.strings, t.strings.table.dom, t.strings.table.val, t.strings.table.vals
+//@   ensures tableOK(t) && sameTables(t)
+
+//@ func (t *SymbolTable) GetStar(s Strings) grammar.NonTerminal
+//@   requires tableOK(t)
+//@   modifies t.strings, t.strings.table.dom, t.strings.table.val, t.strings.table.vals
+//@   ensures tableOK(t) && sameTables(t)
+
+//@ func (t *SymbolTable) GetPlus(s Strings) grammar.NonTerminal
+//@   requires tableOK(t)
+//@   modifies t.strings, t.strings.table.dom, t.strings.table.val, t.strings.table.vals
+//@   ensures tableOK(t) && sameTables(t)
+
+// A-EQ: grammar.EqTerminal and grammar.EqNonTerminal are generic.NewEqualFunc[T](), i.e. Go's == (read off the
+// dependency's source, grammar/symbol.go).
+//@ func NewSymbolTable() *SymbolTable
+//@   fresh-result
+//@   assumes @A-EQ eqIsIdent(grammar.EqTerminal) && eqIsIdent(grammar.EqNonTerminal)
+//@   ensures tableOK(result) && len(result.precedences.list) == 0
+
+//@ import "github.com/gardenbed/emerge/internal/ebnf/parser"
+
+// A-TABLES: the parser package's productions table is the literal it is initialised with (never written).
+// L-STACK (final value): when ParseAndEvaluate succeeds its value is the one the action of production 0
+// (grammar -> name decls) returned, which is proved to be a non-nil *Spec.
+//@ func Parse(filename string, src io.Reader) (*Spec, error)
+//@   modifies heap
+//@   assumes @A-TABLES tablesOK()
+//@   clientinv = table != nil && tableOK(table) && errs != nil && errs.n >= 0
+//@   callsite ParseAndEvaluate assumes @L-STACK result1 == nil ==> result0 != nil && lrResultTyped(0, result0.Val) && unbox(result0.Val, "*Spec") != nil
+//@   ensures @never-nil-nil result1 == nil ==> result0 != nil
+//@   ensures result1 != nil ==> result0 == nil
+
+// ---- verification of the populated table (C07) ----
+
+//@ import "github.com/moorara/algo/errors"
+
+// errOK(e) (contracts/dep/algo.gvc): nil or a non-empty *MultiError.
+
+// singleDefs(t): every terminal has exactly one definition.
+//@ spec func singleDefs(t *SymbolTable) bool = forall a grammar.Terminal :: {a in t.terminals.table.dom} a in t.terminals.table.dom ==> len(defsOf(t, a)) == 1
+
+//@ func (t *SymbolTable) ensureSingleDefs() error
+//@   requires tableOK(t)
+//@   loop[0] invariant errOK(errs) && (errs == nil || fresh(unbox(errs, "*errors.MultiError")))
+//@   loop[0] invariant errs != nil ==> (exists a grammar.Terminal :: a in __vis0 && len(defsOf(t, a)) != 1)
+//@   loop[0] invariant forall a grammar.Terminal :: {a in __vis0} {t.terminals.table.val[a]} a in __vis0 && len(defsOf(t, a)) != 1 ==> errs != nil
+//@   ensures errOK(result)
+//@   ensures @only-if result != nil ==> !singleDefs(t)
+//@   ensures @if result == nil ==> singleDefs(t)
+
+//@ func (t *SymbolTable) ensureSingleDefs$1(def *TerminalDef) string
+//@   requires def != nil
+
+//@ func (t *SymbolTable) ensureDistinctDefs() error
+//@   requires tableOK(t)
+//@   loop[0] invariant forall v string, j int :: {reverse[v][j]} 0 <= j && j < len(reverse[v]) ==> reverse[v][j] != nil
+//@   loop[1] invariant errOK(errs) && (errs == nil || fresh(unbox(errs, "*errors.MultiError")))
+//@   ensures errOK(result)
+
+//@ func (t *SymbolTable) ensureDistinctDefs$1(def *TerminalDef) string
+//@   requires def != nil
+
+//@ func (t *SymbolTable) ensureStartSymbol() error
+//@   requires tableOK(t)
+//@   ensures result == nil || !typeis(result, "*errors.MultiError")
+
+//@ func (t *SymbolTable) ensureStartSymbol$1(p *grammar.Production, e *productionEntry) bool
+//@   requires p != nil
+
+//@ func (t *SymbolTable) Verify() error
+//@   requires tableOK(t)
+//@   ensures errOK(result)
+//@   ensures @single-defs result == nil ==> singleDefs(t)
+
+// Definitions: exactly the definitions of the singly-defined terminals.
+//@ func (t *SymbolTable) Definitions() []*TerminalDef
+//@   requires tableOK(t)
+//@   loop[0] invariant forall j int :: {defs[j]} 0 <= j && j < len(defs) ==> defs[j] != nil && (exists a grammar.Terminal :: a in __vis0 && len(defsOf(t, a)) == 1 && defs[j] == defsOf(t, a)[0])
+//@   loop[0] invariant forall a grammar.Terminal :: {a in __vis0} a in __vis0 && len(defsOf(t, a)) == 1 ==> (exists j int :: 0 <= j && j < len(defs) && defs[j] == defsOf(t, a)[0])
+//@   ensures @nonnil forall j int :: {result[j]} 0 <= j && j < len(result) ==> result[j] != nil
+//@   ensures @sound forall j int :: {result[j]} 0 <= j && j < len(result) ==> (exists a grammar.Terminal :: a in t.terminals.table.dom && len(defsOf(t, a)) == 1 && result[j] == defsOf(t, a)[0])
+//@   ensures @complete forall a grammar.Terminal :: {a in t.terminals.table.dom} a in t.terminals.table.dom && len(defsOf(t, a)) == 1 ==> (exists j int :: 0 <= j && j < len(result) && result[j] == defsOf(t, a)[0])
+
+// A-CMP: grammar.CmpTerminal is generic.NewCompareFunc[Terminal]() (non-nil; read off the dependency's source).
+//@ func (t *SymbolTable) Definitions$1(lhs *TerminalDef, rhs *TerminalDef) int
+//@   requires lhs != nil && rhs != nil
+//@   assumes @A-CMP grammar.CmpTerminal != nil
+
+//@ func (t *SymbolTable) Terminals() []grammar.Terminal
+//@   requires tableOK(t)
+//@   loop[0] invariant forall a grammar.Terminal :: {a in __vis0} a in __vis0 ==> (exists j int :: 0 <= j && j < len(all) && all[j] == a)
+//@   loop[0] invariant forall j int :: {all[j]} 0 <= j && j < len(all) ==> all[j] in __vis0
+//@   ensures @exact forall a grammar.Terminal :: {a in t.terminals.table.dom} a in t.terminals.table.dom <==> (exists j int :: 0 <= j && j < len(result) && result[j] == a)
+
+//@ func (t *SymbolTable) NonTerminals() []grammar.NonTerminal
+//@   requires tableOK(t)
+//@   loop[0] invariant forall a grammar.NonTerminal :: {a in __vis0} a in __vis0 ==> (exists j int :: 0 <= j && j < len(all) && all[j] == a)
+//@   loop[0] invariant forall j int :: {all[j]} 0 <= j && j < len(all) ==> all[j] in __vis0
+//@   ensures @exact forall a grammar.NonTerminal :: {a in t.nonTerminals.table.dom} a in t.nonTerminals.table.dom <==> (exists j int :: 0 <= j && j < len(result) && result[j] == a)
+
+//@ func (t *SymbolTable) Productions() []*grammar.Production
+//@   requires tableOK(t)
